@@ -198,7 +198,7 @@ class InitOwnership(FunctionContract):
 
     def scenarios(self):
         # parser-built classes have `CHECK = ENDOGENOUS` (one list object under two names); hand-written ones usually two lists
-        return ['separate-class-lists', 'check-is-endogenous'] if self.which in ('model', 'linker') else ['default']
+        return ['separate-class-lists', 'check-is-endogenous', 'empty-check'] if self.which in ('model', 'linker') else ['default']
 
     def setup(self, interp, scenario):
         import fsic
@@ -206,17 +206,18 @@ class InitOwnership(FunctionContract):
         ctx = interp.ctx
         e = {'stored': {}, 'which': self.which}
         same = scenario == 'check-is-endogenous'
+        empty = scenario == 'empty-check'
 
         class M(fsic.BaseModel):
-            ENDOGENOUS = ['Y']
+            ENDOGENOUS = ['Y', 'W']
             EXOGENOUS = ['X']
             NAMES = ENDOGENOUS + EXOGENOUS
-            CHECK = ENDOGENOUS if same else ['Y']
+            CHECK = ENDOGENOUS if same else [] if empty else ['W', 'X']          # the check list is its own list: another order, other members, or none
 
         class L(fsic.BaseLinker):
-            ENDOGENOUS = ['Z']
+            ENDOGENOUS = ['Z', 'V']
             NAMES = ENDOGENOUS
-            CHECK = ENDOGENOUS if same else ['Z']
+            CHECK = ENDOGENOUS if same else [] if empty else ['V']
 
         class Al(AliasMixin, M):
             ALIASES = {'GDP': 'Y', 'out': 'GDP'}
@@ -265,7 +266,7 @@ class InitOwnership(FunctionContract):
         f = e['obj'].fields
         pairs = {'model': [('endogenous', 'ENDOGENOUS'), ('check', 'CHECK')], 'linker': [('endogenous', 'ENDOGENOUS'), ('check', 'CHECK')],
                  'alias': [('preferred_names', 'PREFERRED_NAMES')], 'interface': [('names', 'NAMES')]}[e['which']]
-        tag = ('C11', 'C18') if e['which'] == 'alias' else None
+        tag = ('C11', 'C18') if e['which'] == 'alias' else ('C11', 'C08') if e['which'] == 'linker' else ('C11', 'C04', 'C02') if e['which'] == 'model' else None
         for attr, cattr in pairs:
             v = f.get(attr)
             c = getattr(cls, cattr)
